@@ -115,6 +115,11 @@ class CallMixin:
                     else:
                         kwargs[n] = v
                 return self.call_value(s3, f, args, kwargs, k, where, e)
+            # d.setdefault(k, {}) / d.setdefault(k, []): an empty display takes the value kind of the dictionary it goes into
+            if isinstance(f, VPy) and f.what == "bound_builtin" and f.obj in ("setdefault", "get") and len(plain) == 2 \
+                    and isinstance(plain[1], (ast.Dict, ast.List)) and not getattr(plain[1], "keys", getattr(plain[1], "elts", None)) \
+                    and hasattr(f.extra, "v"):
+                self.kind_hints.setdefault((self.cur_func_name, plain[1].lineno), f.extra.v)
             return self.ev_list(s2, plain + kw_exprs, got_args)
         return self.ev(st, e.func, got_f)
 
